@@ -1,4 +1,5 @@
-(* Proofs/GCConfProofs.v -- the collector under every process-wide configuration (Model/LogConf.v, Model/GCConf.v). *)
+(* Proofs/GCConfProofs.v -- lemmas about the model of Python's logging tree (Model/LogConf.v: NOT property theorems, they say nothing about
+   DataShard) and the counted source facts about the collector and the process-wide configuration (Model/GCConf.v). *)
 From Coq Require Import ZArith List String Bool Lia.
 Require Import DS.Gen.GenGCLog DS.Model.LogConf DS.Model.GC DS.Model.GCConf DS.Proofs.GCProofs.
 Import ListNotations.
@@ -66,21 +67,15 @@ Qed.
 Lemma may_emit_spec : forall c s, In s (may_emit c) <-> In s GC_LOG_SITES /\ lc_disable c < snd s /\ effective c <= snd s.
 Proof. intros c s. unfold may_emit. rewrite filter_In, enabled_spec. reflexivity. Qed.
 
-(* what a collection does to the store is the same under EVERY history of configuration events from EVERY starting
-   configuration; what it may log comes from the regenerated statement table, at enabled levels only; it reads no environment *)
-Lemma gc_conf_independent : forall (evs : list conf_ev) (c0 : logconf) tp grace now timeout o snaps st,
-  fst (gc_run_conf (conf_run evs c0) tp grace now timeout o snaps st) = gc_run tp grace now timeout o snaps st
-  /\ (forall s, In s (snd (gc_run_conf (conf_run evs c0) tp grace now timeout o snaps st)) ->
-        In s GC_LOG_SITES /\ enabled (conf_run evs c0) (snd s) = true)
-  /\ gc_env_view (conf_run evs c0) = [].
-Proof.
-  intros. split; [reflexivity|]. split; [|reflexivity].
-  intros s H. simpl in H. unfold may_emit in H. apply filter_In in H. exact H.
-Qed.
+Lemma may_emit_sites : forall c s, In s (may_emit c) -> In s GC_LOG_SITES /\ enabled c (snd s) = true.
+Proof. intros c s H. unfold may_emit in H. apply filter_In in H. exact H. Qed.
 
-(* C05_gc_safe under every configuration history *)
-Lemma gc_safe_any_conf : forall (evs : list conf_ev) (c0 : logconf) (tp : string) (grace now timeout : Z) (snaps : list string) (st : store),
-  wf_store snaps st ->
-  forall k, In k (r_deleted (fst (gc_run_conf (conf_run evs c0) tp grace now timeout no_faults snaps st))) ->
-    ~ referenced snaps st k /\ ~ live_target now timeout st k /\ exists ob, lookup k st = Some ob /\ mtime ob < now - grace.
-Proof. intros evs c0 tp grace now timeout snaps st Hwf k Hk. exact (gc_safe_nofault tp grace now timeout snaps st Hwf k Hk). Qed.
+(* COUNTED SOURCE FACTS (Gen/GenGCLog.v, regenerated on every run): in garbage_collector.py (lexical check, fail closed) and in every
+   function of the scope modules reachable by name from it (counting scan) there is no use of a logger other than logging statements
+   with purely observing arguments, no use of the logging module, and no read of the environment.  This is a statement about the
+   generated tables, NOT about gc_run: Model/GC.v has no configuration input on the strength of it. *)
+Lemma conf_not_consulted : GC_CONF_READS = [] /\ GC_ENV_READS = [] /\ GC_ENV_VARS = [].
+Proof. repeat split; reflexivity. Qed.
+
+Lemma gc_env_view_empty : forall c, gc_env_view c = [].
+Proof. intro c. unfold gc_env_view. rewrite (proj2 (proj2 conf_not_consulted)). reflexivity. Qed.
